@@ -237,6 +237,10 @@ class Parser:
             return flat[idx]
         import z3
         c.dom.require(z3.And(idx.re >= 0, idx.re < len(flat)))
+        jk = "int"
+        for e in flat:
+            jk = T.join(jk, "int" if e.kind == "bool" else e.kind)
+        flat = [T.lift(e, jk) if jk != "int" else e for e in flat]
         res = flat[-1]
         for k in range(len(flat) - 2, -1, -1):
             e = flat[k]
